@@ -43,6 +43,9 @@ type Engine struct {
 	// that was merely renamed can be found again by its type
 	nameTypes map[string]map[string]string
 	seenNames map[string]map[string]string
+	// header text of the loops of each analysed function in ordinal order, recorded on the pinned tree (baseline/loops.json)
+	loopKeys  map[string][]string
+	seenLoops map[string][]string
 }
 
 func LoadEngine(repo string, verifDir string) (*Engine, error) {
@@ -83,6 +86,11 @@ func LoadEngine(repo string, verifDir string) (*Engine, error) {
 	eng.nameTypes = map[string]map[string]string{}
 	if b, err := os.ReadFile(filepath.Join(verifDir, "baseline", "names.json")); err == nil {
 		json.Unmarshal(b, &eng.nameTypes)
+	}
+	eng.seenLoops = map[string][]string{}
+	eng.loopKeys = map[string][]string{}
+	if b, err := os.ReadFile(filepath.Join(verifDir, "baseline", "loops.json")); err == nil {
+		json.Unmarshal(b, &eng.loopKeys)
 	}
 	return eng, nil
 }
